@@ -162,6 +162,18 @@ def run_rotation(spec):
             return Out(ok=False, msg="supercell rotation is not integral in the primitive basis: %s" % rp)
         ops.append(np.rint(rp).astype(int))
     worst = 0
+    if nac == "none" and len(ops) >= 2:
+        # the same star of q through the batched solver, handed over the way a user computes it: (R^T Q^T)^T is Fortran-ordered
+        from phonopy.harmonic.dynamical_matrix import run_dynamical_matrix_solver_c
+
+        Rq = np.array([rp.T @ q for rp in ops])
+        batch = np.array(Rq.T, order="C").T  # logical rows R^T q, memory column-major
+        Db = run_dynamical_matrix_solver_c(ph.dynamical_matrix, batch)
+        for k, rp in enumerate(ops):
+            e = np.abs(np.linalg.eigvalsh(Db[k]) - ev).max() / sc
+            if e > tol:
+                return Out(ok=False, info={"err": e}, msg="batched solver on a column-major array of rotated q-points: spectrum(Rq) != spectrum(q): %.3e for "
+                           "R^T=%s q=%s" % (e, rp.T.tolist(), q.tolist()))
     for rp in ops:
         e = np.abs(np.linalg.eigvalsh(_D(ph, rp.T @ q)) - ev).max() / sc
         worst = max(worst, e)
